@@ -35,6 +35,9 @@ def _get_story_duration(story_tag: Element) -> Optional[float]:
         payload = metadata.find('mosPayload')
     except AttributeError:
         return
+    if payload is None:
+        # a metadata block without a payload carries no timing data
+        return
 
     try:
         return float(payload.find('StoryDuration').text)
